@@ -5,15 +5,24 @@ from vlib import *
 EXT = ("NewAddress", "CurrentAddress")
 
 
+IMPORTED = ("SpendImported", "SpendImportedDry", "FundPsbtImported")
+
+
 def static_branch(call):
-    return (call["scope"], 0 if call["api"] in EXT else 1)
+    """(scope, account, branch) of the index counter the request draws from.
+    A spend whose inputs belong to the imported account creates its change on account 0."""
+    account = 0 if call["api"] in IMPORTED else call.get("account", 0)
+    return (call["scope"], account, 0 if call["api"] in EXT else 1)
 
 
 class C09(Check):
     ID = "C09"
     RULE = ("systematic: for every ordered pair (A, B) of NewAddress, NewChangeAddress, CurrentAddress (unused and used tip), "
             "CreateSimpleTx, CreateSimpleTx dry run, FundPsbt on a real wallet.Wallet over bbolt behind the walletdb proxy, A is parked "
-            "between its real commit and its OnCommit handlers and B's whole request is started in that window; "
+            "between its real commit and its OnCommit handlers and B's whole request is started in that window; the same for "
+            "spends whose inputs belong to an imported private key (CreateSimpleTx/FundPsbt from ImportedAddrAccount: their change "
+            "is created on account 0) against every account-0 request in both orders, and for requests on a second account "
+            "(own counters) against account-0 and imported-account requests; "
             "random: 2-8 calls (API/scope mix, warm-up requests, used tip, cached or uncached account), all or some gated, "
             "random orders of call starts and gate releases, and ungated stress runs with 6-16 goroutines. Observed: every "
             "returned address mapped to its derivation index, the order of begin/commit/rollback/handlers events (the schedule), "
@@ -68,7 +77,7 @@ class C09(Check):
             labels.append("%s %d" % (name, tid.get(ev["call"], 999)))
         out = []
         for b in o["branches"]:
-            key = (b["scope"], b["branch"])
+            key = (b["scope"], b.get("account", 0), b["branch"])
             mine = [k for k in tid if static_branch(i["calls"][k]) == key and calls[k]["n"] > 0]
             if not mine and b["mem_after"] == b["n0"] and b["disk_after"] == b["n0"]:
                 continue
@@ -79,7 +88,7 @@ class C09(Check):
                 threads.append('("%s", %s, %s)' % (cl["site"], cN(n), cbool(cl["commits"])))
                 if k in mine and cl["commits"] and not cl["err"]:
                     idx = cl["index"]
-                    if idx < 0 or (cl["scope"], cl["branch"]) != key:
+                    if idx < 0 or (cl["scope"], cl.get("account", 0), cl["branch"]) != key:
                         idx = 4000000000    # obtained something that is not on the branch the API draws from
                     obs.append("(%d%%nat, %s)" % (tid[k], cN(idx)))
             out.append("{| c_n0 := %s; c_cached := %s; c_threads := %s;\n     c_sched := %s;\n     c_obs := %s; c_mem_after := %s; c_disk_after := %s; c_strict := %s |}" % (
